@@ -479,7 +479,9 @@ impl<'tcx> Dumper<'tcx> {
         let t = c.ty();
         let ts = self.ty(t);
         if let Const::Unevaluated(uv, _) = c {
-            if uv.promoted.is_none() && uv.args.is_empty() && uv.def.is_local() {
+            if uv.promoted.is_none() && uv.args.is_empty() && uv.def.is_local()
+                && matches!(tcx.def_kind(uv.def), DefKind::Const { .. } | DefKind::AssocConst { .. })
+            {
                 return J::obj(vec![("o", js("const")), ("ty", js(ts)), ("ref", js(self.path(uv.def)))]);
             }
         }
